@@ -30,7 +30,7 @@ Ltac step_inv H :=
   try discriminate H;
   match type of H with Some _ = Some _ => injection H as H; subst end.
 
-Ltac fields := cbn [l_closed l_closing l_arm l_done l_mu l_tl_exited l_cr l_thr with_t set_lp lret lp lcalls lresults] in *.
+Ltac fields := cbn [l_closed l_closing l_arm l_done l_mu l_tl_exited l_cr l_lockreq l_thr with_t set_lp lret lp lcalls lresults] in *.
 
 Ltac thr t0 t := destruct (Nat.eq_dec t0 t) as [?Heq|?Hne]; [subst t0; rewrite ?updt_same in * | rewrite ?updt_other in * by assumption].
 
@@ -175,8 +175,8 @@ Proof.
   intros progs sched t sd c s Hsec Hdone Hcl Htl.
   assert (HI : Inv1 s) by apply inv1_reach.
   assert (Harm : l_arm s sd = c) by (apply (i_arm s HI t); apply in_section_sect; exact Hsec).
-  assert (Hor : l_done s (l_arm s SR) || l_done s (l_arm s SW) = true).
-  { destruct sd; rewrite Harm, Hdone; [reflexivity | apply orb_true_r]. }
+  assert (Hor : l_lockreq s || l_done s (l_arm s SR) || l_done s (l_arm s SW) = true).
+  { destruct sd; rewrite Harm, Hdone; [rewrite orb_true_r; reflexivity | apply orb_true_r]. }
   eexists. split; [|split].
   - unfold lstep. rewrite Htl, Hcl, Hor. reflexivity.
   - reflexivity.
@@ -518,6 +518,10 @@ Proof.
       destruct k; unfold after_section in Hin; fields; try solve [apply (Hold t); exact Hin].
       apply in_lret in Hin. destruct Hin as [Hin | [rest [Hl _]]]; [apply (Hold t); exact Hin|].
       destruct Hok as [rest' Hok]. rewrite Hok in Hl. injection Hl as Hl _. subst call. apply is_close_sec_call in Hcl. contradiction Hcl.
+    + specialize (Hok t). unfold call_ok in Hok. rewrite E in Hok.
+      destruct k; unfold after_section in Hin; fields; try solve [apply (Hold t); exact Hin].
+      apply in_lret in Hin. destruct Hin as [Hin | [rest [Hl _]]]; [apply (Hold t); exact Hin|].
+      destruct Hok as [rest' Hok]. rewrite Hok in Hl. injection Hl as Hl _. subst call. apply is_close_sec_call in Hcl. contradiction Hcl.
     + (* LRelease *)
       specialize (Hok t). unfold call_ok in Hok. rewrite E in Hok.
       destruct k, ok; unfold after_section in Hin; fields; try solve [apply (Hold t); exact Hin].
@@ -619,13 +623,14 @@ Theorem life_cancel_after_success : forall progs sched c, fresh_cr progs -> let 
   (forall t sd k, lp (l_thr s t) <> LRelease sd false k) ->
   (forall t k, lp (l_thr s t) <> LDoClose k) ->
   l_done s (l_arm s SR) || l_done s (l_arm s SW) = false ->
+  l_lockreq s = false ->
   forall s', lstep s (LCancel c) = Some s' -> lstep s' LTimeout = None.
 Proof.
-  intros progs sched c Hf s Hc Hcl Hprog Hres Hrel Hdc Hdone s' Hstep.
+  intros progs sched c Hf s Hc Hcl Hprog Hres Hrel Hdc Hdone Hlr s' Hstep.
   destruct (life_harmless_after_success progs sched c Hf Hc Hcl Hprog Hres Hrel Hdc) as [HR HW]. fold s in HR, HW.
   unfold lstep in Hstep. destruct (Nat.eqb c 0); [discriminate Hstep|]. injection Hstep as Hstep. subst s'.
   unfold lstep. fields. destruct (l_tl_exited s); [reflexivity|]. rewrite Hcl.
-  rewrite (updc_other _ _ _ HR), (updc_other _ _ _ HW), Hdone. reflexivity.
+  rewrite Hlr, (updc_other _ _ _ HR), (updc_other _ _ _ HW). cbn [orb]. rewrite Hdone. reflexivity.
 Qed.
 Print Assumptions life_cancel_after_success.
 
@@ -706,3 +711,45 @@ Proof.
     eapply exited_stable_step; eassumption.
 Qed.
 Print Assumptions life_joined_after_return.
+
+(* ================= giving up a lock wait (conn.go lockTimeout): the timeout goroutine closes the connection ================= *)
+Theorem life_lockreq_sticky : forall s e s', lstep s e = Some s' -> l_lockreq s = true -> l_lockreq s' = true.
+Proof. intros s e s' H Hc. destruct e; step_inv H; fields; try reflexivity; exact Hc. Qed.
+Print Assumptions life_lockreq_sticky.
+
+Lemma lockreq_timeout_any : forall s, Inv1 s -> l_lockreq s = true -> l_closed s = false ->
+  exists s', lstep s LTimeout = Some s' /\ l_closed s' = true.
+Proof.
+  intros s HI Hl Hc.
+  assert (Htl : l_tl_exited s = false).
+  { destruct (l_tl_exited s) eqn:Et; [|reflexivity]. rewrite (i_tl s HI Et) in Hc. discriminate Hc. }
+  eexists. split.
+  - unfold lstep. rewrite Htl, Hc, Hl. cbn [orb]. reflexivity.
+  - reflexivity.
+Qed.
+
+Theorem life_lockreq_closes : forall progs sched, let s := lrun (linit progs) sched in
+  l_lockreq s = true -> l_closed s = false ->
+  exists s', lstep s LTimeout = Some s' /\ l_closed s' = true.
+Proof. intros progs sched s. apply lockreq_timeout_any. apply inv1_reach. Qed.
+Print Assumptions life_lockreq_closes.
+
+Theorem life_giveup_closes : forall progs sched t sd c k, let s := lrun (linit progs) sched in
+  lp (l_thr s t) = LWantMu sd c k -> l_done s c = true -> l_closed s = false ->
+  exists s1, lstep s (LStep t true) = Some s1 /\
+    l_closed s1 = false /\ l_lockreq s1 = true /\
+    l_thr s1 t = after_section (l_thr s t) false k /\
+    exists s2, lstep s1 LTimeout = Some s2 /\ l_closed s2 = true.
+Proof.
+  intros progs sched t sd c k s Hp Hd Hc.
+  assert (HI : Inv1 s) by apply inv1_reach.
+  assert (Hs : lstep s (LStep t true) =
+     Some {| l_closed := l_closed s; l_closing := l_closing s; l_arm := l_arm s; l_done := l_done s; l_mu := l_mu s;
+             l_tl_exited := l_tl_exited s; l_cr := l_cr s; l_lockreq := true;
+             l_thr := updt (l_thr s) t (after_section (l_thr s t) false k) |}).
+  { unfold lstep. cbv zeta. rewrite Hp, Hc, Hd. reflexivity. }
+  eexists. split; [exact Hs|]. fields.
+  split; [exact Hc|]. split; [reflexivity|]. split; [apply updt_same|].
+  apply lockreq_timeout_any; [eapply inv1_step; eassumption | reflexivity | exact Hc].
+Qed.
+Print Assumptions life_giveup_closes.
